@@ -48,8 +48,8 @@ impl J {
 
 pub fn jobs(ctx: &Ctx) -> Vec<J> {
     let mut out = Vec::new();
-    let nb = ctx.tier.pick(2_500, ctx.scale(60_000));
-    let nr = ctx.tier.pick(700, ctx.scale(15_000));
+    let nb = ctx.tier.pick(2_000, ctx.scale(150_000));
+    let nr = ctx.tier.pick(700, ctx.scale(40_000));
     for k in 0..nb {
         out.push(J::BuildHistory { seed: mix(ctx.seed, k as u64 ^ 0xb14) });
     }
@@ -382,7 +382,7 @@ pub fn run(ctx: &Ctx) -> Report {
     let jobs = jobs(ctx);
     let mut st = pool::run(&jobs, ctx.remaining(), |st, job, _| observe(ctx, st, job));
     // schedules use the whole machine themselves: run them one after the other
-    let reps = ctx.tier.pick(1, ctx.scale(12));
+    let reps = ctx.tier.pick(1, ctx.scale(20));
     for rep in 0..reps {
         for &threads in &[1usize, 2, 4, 8, 16] {
             let j = J::Schedule { seed: mix(ctx.seed, (rep * 100 + threads) as u64), threads, njobs: ctx.tier.pick(300, 500) };
